@@ -490,6 +490,9 @@ fn histories(fx: &Fixture, tier: Tier, st: &mut Stats, only: Option<&Value>) {
         // column names whose byte order differs from their case-insensitive order (header and rows are rendered at two sites)
         ("csv_sorted_mixed_case", json!({"type": "csv", "sorted": true, "mapping": {"qid": "request.qid", "Zone": "request.origin_vertex", "tripId": {"optional": "route.traversal_summary.distance"}, "trip_distance": {"sum": [{"optional": "route_edges"}, {"optional": "iterations"}]}, "n": {"optional": "error"}}})),
         ("csv_unsorted_mixed_case", json!({"type": "csv", "sorted": false, "mapping": {"Zone": "request.origin_vertex", "qid": "request.qid", "tripId": {"optional": "route.traversal_summary.distance"}, "a_b": {"optional": "error"}}})),
+        // one column: the record of a response for which the column does not resolve is the empty row
+        ("csv_single_column", json!({"type": "csv", "sorted": false, "mapping": {"dist": "route.traversal_summary.distance"}})),
+        ("csv_single_error_column", json!({"type": "csv", "sorted": true, "mapping": {"err": "error"}})),
     ];
     // run contents: indices into the query alphabet
     let contents: Vec<Vec<usize>> = vec![vec![0], vec![2], vec![0, 2], vec![1, 4, 3], vec![5, 0]];
@@ -534,6 +537,7 @@ fn histories(fx: &Fixture, tier: Tier, st: &mut Stats, only: Option<&Value>) {
                     let comp = format!("append_histories.{}", fname);
                     let case = || json!({"format": fname, "persistence": persist, "parallelism": par, "runs": seq.iter().map(|c| contents[*c].clone()).collect::<Vec<_>>()});
                     let mut expected_ids: Vec<String> = vec![];
+                    let mut all_alone: Vec<Value> = vec![];
                     let mut all_returned: Vec<Value> = vec![];
                     let mut ok = true;
                     for (ri, c) in seq.iter().enumerate() {
@@ -543,6 +547,7 @@ fn histories(fx: &Fixture, tier: Tier, st: &mut Stats, only: Option<&Value>) {
                             expected_ids.push(q["qid"].as_str().unwrap().to_string());
                         }
                         let alone_r: Vec<Value> = queries.iter().map(|q| app.run(vec![q.clone()], None).ok().and_then(|r| r.first().map(project)).unwrap_or(Value::Null)).collect();
+                        all_alone.extend(alone_r.iter().cloned());
                         let (a2, q2, c2) = (fx.app.clone(), queries.clone(), cfg.clone());
                         let answer = match crate::engine::with_deadline(60, move || guarded(|| a2.run(q2, Some(&c2)).map_err(|e| e.to_string()))) {
                             Some(a) => a,
@@ -590,7 +595,34 @@ fn histories(fx: &Fixture, tier: Tier, st: &mut Stats, only: Option<&Value>) {
                     }
                     let text = std::fs::read_to_string(&path).unwrap_or_default();
                     let lines: Vec<&str> = text.split('\n').filter(|l| !l.is_empty()).collect();
-                    if format["type"] == json!("csv") {
+                    if fname.starts_with("csv_single") {
+                        // one column: empty rows are records; the wanted rows come from the responses of the queries run alone
+                        let mut raw: Vec<&str> = text.split('\n').collect();
+                        if raw.last() == Some(&"") {
+                            raw.pop();
+                        }
+                        let header = ref_csv_header(format);
+                        if raw.first().copied() == Some(header.as_str()) {
+                            st.pass("single_header_first");
+                        } else {
+                            st.violation(&comp, "single_header_first", seq.len() as u64, || format!("first line {:?}", raw.first()), case);
+                        }
+                        let strip = |r: &Value| Value::Object(r.as_object().map(|m| m.iter().filter(|(_, v)| !v.is_null()).map(|(k, v)| (k.clone(), v.clone())).collect()).unwrap_or_default());
+                        let mut want: Vec<String> = all_alone.iter().map(|r| ref_csv_row(format, &strip(r))).collect();
+                        let mut got: Vec<String> = raw.iter().skip(1).map(|l| l.to_string()).collect();
+                        if got.len() == expected_ids.len() {
+                            st.pass("rows_accumulate_across_runs");
+                        } else {
+                            st.violation(&comp, "rows_accumulate_across_runs", seq.len() as u64, || format!("{} rows (empty ones included) for {} responses over {} runs", got.len(), expected_ids.len(), seq.len()), case);
+                        }
+                        want.sort();
+                        got.sort();
+                        if want == got {
+                            st.pass("rows_follow_mapping_in_header_order");
+                        } else {
+                            st.violation(&comp, "rows_follow_mapping_in_header_order", seq.len() as u64, || format!("header {:?}: rows {:?} want {:?}", header, got, want), case);
+                        }
+                    } else if format["type"] == json!("csv") {
                         let header = ref_csv_header(format);
                         let n_headers = lines.iter().filter(|l| **l == header).count();
                         if n_headers == 1 && lines.first().copied() == Some(header.as_str()) {
